@@ -150,11 +150,12 @@ pub fn run_c15<H: HB>(tier: Tier) -> Outcome {
         return out;
     }
     // deep seeds
-    for n in if q { vec![8usize, 16, 65, 128] } else { vec![7, 8, 9, 16, 17, 33, 64, 65, 127, 128, 129, 257, 512, 1025] } {
+    // (4097 / 10000: beyond any preallocation cap a cautious visitor may use for an announced length)
+    for n in if q { vec![8usize, 16, 65, 128, 4097] } else { vec![7, 8, 9, 16, 17, 33, 64, 65, 127, 128, 129, 257, 512, 1025, 4096, 4097, 10000, 65537] } {
         let t0 = Instant::now();
         let mut c = seeds_cfg(prop, n, &REL_TERN, 0);
         c.deep = false;
-        let seeds = if n <= 8 { f_bin(n) } else if n > 40 { f_large(n) } else { f_seg(n) };
+        let seeds = if n <= 8 { f_bin(n) } else if n > 2000 { f_large(n).into_iter().step_by(7).collect() } else if n > 40 { f_large(n) } else { f_seg(n) };
         let mut ex = Explorer::<H>::new(&c);
         ex.collect = Some(Default::default());
         let mut roots = vec![];
@@ -202,5 +203,9 @@ pub fn run_c15<H: HB>(tier: Tier) -> Outcome {
         r.map_err(mk_case)
     });
     absorb_post(&mut out, &format!("deserialising every pair sequence of <= {len} pairs over 3 items x 3 priorities (repeats included), 3 channels, both kinds"), cases, viol, t0, json!({"sequences": seqs.len()}));
+    if out.violations.is_empty() {
+        // round trips of every reachable small state for ten instantiations of the element types
+        type_matrix(&mut out, prop);
+    }
     out
 }
